@@ -957,6 +957,12 @@ pub fn replay(factory: &ScenarioFactory, prefix: &[Choice], bounds: Cost) -> Run
 /// Explore many small scenarios: each exploration runs single-threaded, `default_workers()` of them at a
 /// time (avoids the per-exploration thread start-up cost and oversubscription). Results in input order.
 pub fn explore_many(jobs: Vec<ScenarioFactory>, cfg_of: &(dyn Fn(usize) -> ExploreConfig + Sync)) -> Vec<ExploreStats> {
+    explore_many_until(jobs, cfg_of, None)
+}
+
+/// `explore_many` with an overall deadline: explorations not started by then are returned empty and marked capped
+/// (the caller's evidence then says `exhaustive: false`).
+pub fn explore_many_until(jobs: Vec<ScenarioFactory>, cfg_of: &(dyn Fn(usize) -> ExploreConfig + Sync), deadline: Option<Instant>) -> Vec<ExploreStats> {
     let n = jobs.len();
     let next = AtomicU64::new(0);
     let out: Mutex<Vec<Option<ExploreStats>>> = Mutex::new((0..n).map(|_| None).collect());
@@ -967,6 +973,10 @@ pub fn explore_many(jobs: Vec<ScenarioFactory>, cfg_of: &(dyn Fn(usize) -> Explo
                 let i = next.fetch_add(1, Ordering::SeqCst) as usize;
                 if i >= n {
                     return;
+                }
+                if deadline.map(|d| Instant::now() > d).unwrap_or(false) {
+                    out.lock().unwrap()[i] = Some(ExploreStats { capped: true, ..Default::default() });
+                    continue;
                 }
                 let mut cfg = cfg_of(i);
                 cfg.workers = 1;
